@@ -234,7 +234,7 @@ func runPaths(m *mp.Model, r *rng.R, n int, arcs bool, fonts text.FontConfigurat
 			cmds = append(cmds, genCmd(cr, rng.Pick(cr, byte('A'), byte('a')), true))
 		}
 		var ft feats
-		d := pathText(cr, cmds, &ft, true)
+		d := pathText(cr, cmds, &ft, cr.P(1, 10))
 		nontrivial := len(cmds) >= 3
 		for _, c := range cmds {
 			if len(c.groups) > 1 {
